@@ -5,6 +5,7 @@ included), the latter written as Σ_x 1/(period of x).  Used for `chi_even_close
 -/
 import Mathlib.GroupTheory.Perm.Cycle.Type
 import Mathlib.Dynamics.PeriodicPts.Defs
+import Mathlib.Dynamics.PeriodicPts.Lemmas
 import Mathlib.Algebra.Order.Field.Rat
 import Mathlib.Tactic.FieldSimp
 import Mathlib.Tactic.Linarith
@@ -121,5 +122,111 @@ theorem three_perms_parity (a b c : Perm β) (h : c * b * a = 1) (ka kb kc : Nat
   have e : kc + kb + ka = ka + kb + kc := by omega
   rw [e, Odd.neg_one_pow hodd] at hs
   exact absurd hs (by decide)
+
+end DSymVerif.PermSign
+
+/-! ### further counting lemmas (oriented maps) -/
+
+namespace DSymVerif.PermSign
+open Equiv Equiv.Perm
+
+set_option linter.unusedSectionVars false
+
+variable {β : Type} [Fintype β] [DecidableEq β]
+
+theorem periodic (π : Perm β) (x : β) : x ∈ Function.periodicPts π := by
+  refine Function.mk_mem_periodicPts (orderOf_pos π) ?_
+  show π^[orderOf π] x = x
+  rw [Equiv.Perm.iterate_eq_pow, pow_orderOf_eq_one]; rfl
+
+theorem period_two (π : Perm β) {x : β} (h1 : π x ≠ x) (h2 : π (π x) = x) :
+    Function.minimalPeriod π x = 2 := by
+  have : Fact (Nat.Prime 2) := ⟨Nat.prime_two⟩
+  exact Function.minimalPeriod_eq_prime (f := π) (show π^[2] x = x from h2) h1
+
+theorem period_three (π : Perm β) {x : β} (h1 : π x ≠ x) (h3 : π (π (π x)) = x) :
+    Function.minimalPeriod π x = 3 := by
+  have : Fact (Nat.Prime 3) := ⟨Nat.prime_three⟩
+  exact Function.minimalPeriod_eq_prime (f := π) (show π^[3] x = x from h3) h1
+
+/-- a finite invariant set swept out by the iterates of one point is one cycle -/
+theorem single_cycle_sum (π : Perm β) (S : Finset β) (x0 : β)
+    (hinv : ∀ k, π^[k] x0 ∈ S) (hreach : ∀ y ∈ S, ∃ k, π^[k] x0 = y) :
+    ∑ y ∈ S, 1 / (Function.minimalPeriod π y : ℚ) = 1 := by
+  have hx0 := periodic π x0
+  set m := Function.minimalPeriod π x0 with hm
+  have hmpos : 0 < m := Function.minimalPeriod_pos_of_mem_periodicPts hx0
+  have hS : S = (Finset.range m).image fun k => π^[k] x0 := by
+    ext y
+    simp only [Finset.mem_image, Finset.mem_range]
+    constructor
+    · intro hy
+      obtain ⟨k, rfl⟩ := hreach y hy
+      exact ⟨k % m, Nat.mod_lt _ hmpos, Function.iterate_mod_minimalPeriod_eq⟩
+    · rintro ⟨k, _, rfl⟩; exact hinv k
+  have hcard : S.card = m := by
+    rw [hS, Finset.card_image_of_injOn, Finset.card_range]
+    intro a ha b hb hab
+    exact Function.iterate_injOn_Iio_minimalPeriod (by simpa using ha) (by simpa using hb) hab
+  have hper : ∀ y ∈ S, 1 / (Function.minimalPeriod π y : ℚ) = 1 / (m : ℚ) := by
+    intro y hy
+    obtain ⟨k, rfl⟩ := hreach y hy
+    rw [Function.minimalPeriod_apply_iterate hx0]
+  rw [Finset.sum_congr rfl hper, Finset.sum_const, hcard, nsmul_eq_mul]
+  have : (m : ℚ) ≠ 0 := by exact_mod_cast (by omega : m ≠ 0)
+  field_simp
+
+/-- the number of cycles from a partition into single cycles -/
+theorem zQ_fibres {κ : Type} [DecidableEq κ] (π : Perm β) (key : β → κ)
+    (h : ∀ v ∈ Finset.univ.image key,
+      ∑ x ∈ Finset.univ.filter (fun x => key x = v), 1 / (Function.minimalPeriod π x : ℚ) = 1) :
+    zQ π = ((Finset.univ.image key).card : ℚ) := by
+  unfold zQ
+  rw [← Finset.sum_fiberwise_of_maps_to (g := key) (t := Finset.univ.image key)
+    (fun x _ => Finset.mem_image_of_mem key (Finset.mem_univ x))]
+  rw [Finset.sum_congr rfl h, Finset.sum_const, nsmul_eq_mul, mul_one]
+
+theorem zQ_sumCongr {γ : Type} [Fintype γ] [DecidableEq γ] (a : Perm β) (b : Perm γ) :
+    zQ (Equiv.sumCongr a b) = zQ a + zQ b := by
+  unfold zQ
+  rw [Fintype.sum_sum_type]
+  have hl : ∀ (n : Nat) (x : β), (Equiv.sumCongr a b)^[n] (Sum.inl x) = Sum.inl (a^[n] x) := by
+    intro n; induction n with
+    | zero => intro x; rfl
+    | succ n ih => intro x; rw [Function.iterate_succ_apply', Function.iterate_succ_apply', ih]; rfl
+  have hr : ∀ (n : Nat) (x : γ), (Equiv.sumCongr a b)^[n] (Sum.inr x) = Sum.inr (b^[n] x) := by
+    intro n; induction n with
+    | zero => intro x; rfl
+    | succ n ih => intro x; rw [Function.iterate_succ_apply', Function.iterate_succ_apply', ih]; rfl
+  congr 1
+  · apply Finset.sum_congr rfl
+    intro x _
+    congr 2
+    apply Function.minimalPeriod_eq_minimalPeriod_iff.2
+    intro n
+    show (Equiv.sumCongr a b)^[n] (Sum.inl x) = Sum.inl x ↔ a^[n] x = x
+    rw [hl]; exact Sum.inl_injective.eq_iff
+  · apply Finset.sum_congr rfl
+    intro x _
+    congr 2
+    apply Function.minimalPeriod_eq_minimalPeriod_iff.2
+    intro n
+    show (Equiv.sumCongr a b)^[n] (Sum.inr x) = Sum.inr x ↔ b^[n] x = x
+    rw [hr]; exact Sum.inr_injective.eq_iff
+
+/-- the parity identity of an oriented map: σ = φ·α -/
+theorem map_parity (φ α : Perm β) (kφ kα kσ : Nat)
+    (hφ : (kφ : ℚ) = (Fintype.card β : ℚ) - zQ φ) (hα : (kα : ℚ) = (Fintype.card β : ℚ) - zQ α)
+    (hσ : (kσ : ℚ) = (Fintype.card β : ℚ) - zQ (φ * α)) : Even (kφ + kα + kσ) := by
+  have hs : sign (φ * α) = sign φ * sign α := sign_mul φ α
+  rw [sign_eq_of_zQ (φ * α) kσ hσ, sign_eq_of_zQ φ kφ hφ, sign_eq_of_zQ α kα hα, ← pow_add] at hs
+  by_contra hodd
+  rw [Nat.not_even_iff_odd] at hodd
+  have : ((-1 : ℤˣ) ^ kσ) * ((-1 : ℤˣ) ^ (kφ + kα)) = 1 := by
+    rw [hs, ← pow_add, ← two_mul, pow_mul]; simp
+  rw [← pow_add] at this
+  have e : kσ + (kφ + kα) = kφ + kα + kσ := by omega
+  rw [e, Odd.neg_one_pow hodd] at this
+  exact absurd this (by decide)
 
 end DSymVerif.PermSign
